@@ -151,7 +151,9 @@ func (d *DNS) isImmediate(q dns.Question) bool {
 	qname := strings.ToLower(q.Name)
 	query := strings.Split(qname, ".")
 	self := strings.Split(d.domain, ".")
-	return strings.HasSuffix(qname, d.domain) &&
+	// the zone itself or a name below it: a name that merely ends with the zone's text
+	// ("xacme.example.com.") is outside the zone
+	return (qname == d.domain || strings.HasSuffix(qname, "."+d.domain)) &&
 		len(query) >= len(self) &&
 		len(query)-len(self) <= 1
 }
